@@ -317,7 +317,7 @@ class RecHarness:
         s = w.live_sock()
         if s is not None and s.connect_result == 0 and not w.net.connecting():
             if w.in_session:
-                io += ["DR", "eof", "user_disc", "user_disc_graceful"]
+                io += ["DR", "eof", "user_disc", "user_disc_graceful"] + ([] if w.write_fault is not None else ["wf"])
             else:
                 io += ["hello_ok", "bad_pw", "marker01", "eof"]
         if w.listeners():
@@ -376,6 +376,8 @@ class RecHarness:
         elif label == "DR":
             io = True
             w.io_chunk(w.live_sock(), w.dframe(mk("DisconnectRequest")))
+        elif label == "wf":
+            w.write_fault = OSError(32, "Broken pipe (armed)")  # the next write to the device fails synchronously
         elif label == "user_disc":
             w.counter += 1
             w.user_asked_disconnect = True
